@@ -187,16 +187,18 @@ Qed.
     its sheet; every sheet receives exactly [spec_writes] after what it held *)
 Lemma place_all_spec : forall l st st', NoDup (map sw_name (ts_sheets st)) -> place_all T st l = Ok st' ->
   (forall n, sget n (ts_rows st') = match sget n (ts_rows st) with Some r => Some (r + step * nrouted T n l) | None => None end)
-  /\ ts_sheets st' = map (fun s => app_writes s (spec_writes T (sw_name s) (rowd (ts_rows st) (sw_name s)) l)) (ts_sheets st).
+  /\ ts_sheets st' = map (fun s => app_writes s (spec_writes T (sw_name s) (rowd (ts_rows st) (sw_name s)) l)) (ts_sheets st)
+  /\ (forall n, sget n (ts_rows st) = None -> nrouted T n l = 0).
 Proof.
   induction l as [|it l IH]; intros st st' ND H; cbn [place_all] in H.
-  - inversion H; subst. split.
+  - inversion H; subst. split; [|split].
     + intro n. destruct (sget n (ts_rows st')); [f_equal; unfold nrouted; cbn; lia | reflexivity].
     + cbn [spec_writes]. rewrite <- (map_id (ts_sheets st')) at 1. apply map_ext. intro s. symmetry. apply app_writes_nil.
+    + intros. reflexivity.
   - destruct (place T st it) as [st1|] eqn:HP; [|discriminate].
     destruct (place_inv _ _ _ HP) as [m [s [r [Hm [Hs [Hr [_ Hst1]]]]]]].
     assert (ND1 : NoDup (map sw_name (ts_sheets st1))) by (subst st1; cbn [ts_sheets]; rewrite add_writes_names; exact ND).
-    destruct (IH st1 st' ND1 H) as [IHr IHs]. split.
+    destruct (IH st1 st' ND1 H) as [IHr [IHs IHn]]. split; [|split].
     + intro n. rewrite IHr. subst st1. cbn [ts_rows]. rewrite sget_sset, nrouted_cons, (routed_target n it m Hm).
       destruct (str_eqb n m) eqn:E.
       * apply str_eqb_eq in E. subst n. rewrite Hr, str_eqb_refl. f_equal. lia.
@@ -208,6 +210,9 @@ Proof.
         rewrite app_writes_app. cbn [app_writes sw_name]. rewrite Hn, str_eqb_refl. unfold rowd.
         rewrite sget_sset, str_eqb_refl, Hr. reflexivity.
       * rewrite (str_eqb_sym m (sw_name s0)), E. unfold rowd. rewrite sget_sset, E. reflexivity.
+    + intros n Hn. rewrite nrouted_cons, (routed_target n it m Hm).
+      destruct (str_eqb m n) eqn:E; [apply str_eqb_eq in E; subst n; congruence|].
+      rewrite (IHn n); [reflexivity|]. subst st1. cbn [ts_rows]. rewrite sget_sset, (str_eqb_sym n m), E. exact Hn.
 Qed.
 
 (** ---------- where a fraction lands *)
@@ -319,3 +324,264 @@ Proof.
 Qed.
 
 End Loop.
+
+(** ---------- asset after asset: the row indexes are threaded through *)
+Section Assets.
+Variable T : trtables.
+Notation step := (tt_row_step T).
+
+Definition ext (s : sheetw) (dr : Z) (ws : list cellw) : sheetw :=
+  {| sw_name := sw_name s; sw_rows := sw_rows s + dr; sw_cols := sw_cols s; sw_writes := sw_writes s ++ ws |}.
+Lemma ext_ext s a wa b wb : ext (ext s a wa) b wb = ext s (a + b) (wa ++ wb).
+Proof. unfold ext. cbn. rewrite <- app_assoc, Z.add_assoc. reflexivity. Qed.
+Lemma ext_id s : ext s 0 [] = s.
+Proof. destruct s. unfold ext. cbn. rewrite app_nil_r, Z.add_0_r. reflexivity. Qed.
+Lemma app_writes_ext s d wa wb : app_writes (ext s d wa) wb = ext s d (wa ++ wb).
+Proof. unfold app_writes, ext. cbn. rewrite <- app_assoc. reflexivity. Qed.
+
+(** rows appended to the sheet named [n] for one asset *)
+Definition dsize (count : ttype -> Z) (n : str) : Z :=
+  if str_eqb n s_Legend then 0 else match sheet_types T n with Some tys => appended T count tys | None => 0 end.
+
+Lemma size_sheets_spec count : forall l l', size_sheets T count l = Ok l' ->
+  l' = map (fun s => ext s (dsize count (sw_name s)) []) l
+  /\ (forall s, In s l -> is_legend s = false -> sheet_types T (sw_name s) <> None).
+Proof.
+  induction l as [|s l IH]; intros l' H; cbn [size_sheets] in H.
+  - inversion H. split; [reflexivity | intros s []].
+  - unfold is_legend in *. destruct (str_eqb (sw_name s) s_Legend) eqn:EL.
+    + destruct (size_sheets T count l) as [r|] eqn:E; [|discriminate]. inversion H; subst. destruct (IH r eq_refl) as [I1 I2].
+      split.
+      * cbn [map]. unfold dsize at 1. rewrite EL, ext_id. f_equal. exact I1.
+      * intros s0 [<-|Hi] Hl; [congruence | apply I2; assumption].
+    + destruct (sheet_types T (sw_name s)) as [tys|] eqn:ET; [|discriminate].
+      destruct (size_sheets T count l) as [r|] eqn:E; [|discriminate]. inversion H; subst. destruct (IH r eq_refl) as [I1 I2].
+      split.
+      * cbn [map]. unfold dsize at 1. rewrite EL, ET. unfold ext at 1. rewrite app_nil_r. f_equal. exact I1.
+      * intros s0 [<-|Hi] Hl; [congruence | apply I2; assumption].
+Qed.
+
+Definition rows_after (rows rows' : list (str * Z)) (items : list item) : Prop :=
+  forall n, sget n rows' = match sget n rows with Some r => Some (r + step * nrouted T n items) | None => None end.
+Definition sheets_after (rows : list (str * Z)) (l l' : list sheetw) (items : list item) : Prop :=
+  exists dr : str -> Z,
+    l' = map (fun s => ext s (dr (sw_name s)) (spec_writes T (sw_name s) (rowd rows (sw_name s)) items)) l.
+Definition unkeyed_unused (rows : list (str * Z)) (items : list item) : Prop :=
+  forall n, sget n rows = None -> nrouted T n items = 0.
+
+Lemma names_ext (f : sheetw -> Z) (g : sheetw -> list cellw) l :
+  map sw_name (map (fun s => ext s (f s) (g s)) l) = map sw_name l.
+Proof. rewrite map_map. apply map_ext. reflexivity. Qed.
+
+Lemma gen_asset_spec i st ac st' : NoDup (map sw_name (ts_sheets st)) -> gen_asset T i st ac = Ok st' ->
+  exists items, mk_items T (asset_sources i ac) = Ok items
+    /\ rows_after (ts_rows st) (ts_rows st') items
+    /\ sheets_after (ts_rows st) (ts_sheets st) (ts_sheets st') items
+    /\ unkeyed_unused (ts_rows st) items.
+Proof.
+  intros ND H. unfold gen_asset in H.
+  destruct (size_sheets T (type_count i (snd ac)) (ts_sheets st)) as [sized|] eqn:ES; [|discriminate].
+  destruct (mk_items T (asset_sources i ac)) as [items|] eqn:EM; [|discriminate].
+  destruct (size_sheets_spec _ _ _ ES) as [Hsz _].
+  assert (ND' : NoDup (map sw_name (ts_sheets {| ts_rows := ts_rows st; ts_sheets := sized |}))).
+  { cbn [ts_sheets]. rewrite Hsz. rewrite names_ext. exact ND. }
+  destruct (place_all_spec T items _ st' ND' H) as [Hr [Hs Hn]]. cbn [ts_rows ts_sheets] in *.
+  exists items. split; [reflexivity|]. split; [exact Hr|]. split; [|exact Hn].
+  exists (fun n => dsize (type_count i (snd ac)) n). rewrite Hs, Hsz, map_map. apply map_ext. intro s.
+  rewrite app_writes_ext. reflexivity.
+Qed.
+
+Lemma gen_assets_spec i : forall acs st st', NoDup (map sw_name (ts_sheets st)) -> gen_assets T i st acs = Ok st' ->
+  exists items, all_items T i acs = Ok items
+    /\ rows_after (ts_rows st) (ts_rows st') items
+    /\ sheets_after (ts_rows st) (ts_sheets st) (ts_sheets st') items
+    /\ unkeyed_unused (ts_rows st) items.
+Proof.
+  induction acs as [|ac acs IH]; intros st st' ND H; cbn [gen_assets] in H.
+  - inversion H; subst. exists []. split; [reflexivity|]. split; [|split].
+    + intro n. destruct (sget n (ts_rows st')); [f_equal; rewrite nrouted_nil; lia | reflexivity].
+    + exists (fun _ => 0). cbn [spec_writes]. rewrite <- (map_id (ts_sheets st')) at 1. apply map_ext. intro s. symmetry. apply ext_id.
+    + intros n _. reflexivity.
+  - destruct (gen_asset T i st ac) as [st1|] eqn:EA; [|discriminate].
+    destruct (gen_asset_spec i st ac st1 ND EA) as [ia [Hia [Hra [[da Hsa] Hna]]]].
+    assert (ND1 : NoDup (map sw_name (ts_sheets st1))) by (rewrite Hsa, names_ext; exact ND).
+    destruct (IH st1 st' ND1 H) as [it [Hit [Hrt [[dt Hst] Hnt]]]].
+    exists (ia ++ it). split; [cbn [all_items]; rewrite Hia, Hit; reflexivity|]. split; [|split].
+    + intro n. rewrite Hrt, Hra. destruct (sget n (ts_rows st)); [|reflexivity]. f_equal. rewrite nrouted_app. ring.
+    + exists (fun n => da n + dt n). rewrite Hst, Hsa, map_map. apply map_ext. intro s. cbn [ext sw_name]. rewrite ext_ext. f_equal.
+      rewrite spec_writes_app. f_equal. f_equal. unfold rowd. rewrite Hra.
+      destruct (sget (sw_name s) (ts_rows st)) eqn:E; [reflexivity|]. rewrite (Hna _ E). ring.
+    + intros n Hn. rewrite nrouted_app, (Hna n Hn). rewrite (Hnt n); [reflexivity|]. rewrite Hra, Hn. reflexivity.
+Qed.
+
+End Assets.
+
+(** ---------- the whole report *)
+Section Whole.
+Variable T : trtables.
+Notation step := (tt_row_step T).
+
+Lemma init_sheet_cases lw tp :
+  (exists s s', init_sheet T lw tp = Some s /\ init_sheet T [] tp = Some s' /\ is_legend s = true /\ is_legend s' = true)
+  \/ init_sheet T lw tp = init_sheet T [] tp.
+Proof.
+  unfold init_sheet. destruct (str_eqb (tp_name tp) (legend_template_name T)).
+  - left. eexists. eexists. split; [reflexivity|]. split; [reflexivity|]. unfold is_legend. cbn [sw_name]. rewrite str_eqb_refl. split; reflexivity.
+  - right. reflexivity.
+Qed.
+
+Lemma init_names lw : forall tmpl,
+  map sw_name (omap_filter (init_sheet T lw) tmpl) = map sw_name (omap_filter (init_sheet T []) tmpl).
+Proof.
+  induction tmpl as [|tp tmpl IH]; cbn [omap_filter]; [reflexivity|].
+  destruct (init_sheet_cases lw tp) as [[s [s' [E1 [E2 [L1 L2]]]]]|E].
+  - rewrite E1, E2. cbn [map]. rewrite IH. f_equal. unfold is_legend in *. apply str_eqb_eq in L1, L2. congruence.
+  - rewrite E. destruct (init_sheet T [] tp); cbn [map]; rewrite IH; reflexivity.
+Qed.
+
+Lemma init_data lw : forall tmpl,
+  filter (fun s => negb (is_legend s)) (omap_filter (init_sheet T lw) tmpl)
+  = filter (fun s => negb (is_legend s)) (omap_filter (init_sheet T []) tmpl).
+Proof.
+  induction tmpl as [|tp tmpl IH]; cbn [omap_filter]; [reflexivity|].
+  destruct (init_sheet_cases lw tp) as [[s [s' [E1 [E2 [L1 L2]]]]]|E].
+  - rewrite E1, E2. cbn [filter]. rewrite L1, L2. cbn [negb]. exact IH.
+  - rewrite E. destruct (init_sheet T [] tp); cbn [filter]; rewrite IH; reflexivity.
+Qed.
+
+Lemma prune_spec rows : forall l out, prune T rows l = Ok out ->
+  out = filter (fun s => is_legend s || negb (rowd rows (sw_name s) =? tt_empty_mark T)) l.
+Proof.
+  induction l as [|s l IH]; intros out H; cbn [prune] in H.
+  - inversion H. reflexivity.
+  - cbn [filter]. destruct (is_legend s).
+    + destruct (prune T rows l) as [r|]; [|discriminate]. inversion H. cbn [orb]. f_equal. apply IH. reflexivity.
+    + destruct (sget (sw_name s) rows) as [r|] eqn:E; [|discriminate].
+      destruct (prune T rows l) as [rest|]; [|discriminate]. inversion H. unfold rowd. rewrite E. cbn [orb].
+      destruct (r =? tt_empty_mark T); cbn [negb]; [|f_equal]; apply IH; reflexivity.
+Qed.
+
+Lemma map_filter_name (p : str -> bool) (q : sheetw -> bool) (l : list sheetw) :
+  (forall s, q s = p (sw_name s)) -> map sw_name (filter q l) = filter p (map sw_name l).
+Proof.
+  intro E. induction l as [|s l IH]; cbn [filter map]; [reflexivity|]. rewrite E. destruct (p (sw_name s)); cbn [map]; rewrite IH; reflexivity.
+Qed.
+
+(** what [tables_ok] gives *)
+Record tables_good : Prop := {
+  tg_nodup : NoDup (map sw_name (init0 T));
+  tg_keys : forall n, In n (data_sheet_names T) -> In n (tt_sheet_names T) /\ sheet_types T n <> None;
+  tg_step : tt_row_step T = 1;
+  tg_mark : tt_empty_mark T = tt_first_row T;
+  tg_first : 0 <= tt_first_row T;
+  tg_legend : existsb (fun tp => str_eqb (tp_name tp) (legend_template_name T)) (tt_template T) = true;
+  tg_sheet : forall s, In s (data_sheets0 T) ->
+     sw_cols s <= 1024 /\ tt_first_row T <= sw_rows s
+     /\ (forall w, In w (sw_writes s) -> 0 <= cw_row w < tt_first_row T /\ 0 <= cw_col w < sw_cols s)
+     /\ (forall cf, In cf (tt_cols_always T ++ tt_cols_lot T ++ tt_cols_nolot T) -> 0 <= fst cf < sw_cols s);
+  tg_cols_lot : NoDup (map fst (tt_cols_always T ++ tt_cols_lot T));
+  tg_cols_nolot : NoDup (map fst (tt_cols_always T ++ tt_cols_nolot T));
+  tg_targets : forall ty n, type_to_sheet T ty = Some n -> In n (data_sheet_names T);
+  tg_fun_keys : NoDup (map fst (tt_sheet_to_types T));
+  tg_fun : forall ty, (length (filter (fun st => ttype_in ty (snd st)) (tt_sheet_to_types T)) <= 1)%nat }.
+
+Lemma tables_ok_good : tables_ok T = true -> tables_good.
+Proof.
+  unfold tables_ok. intro H.
+  apply andb_true_iff in H. destruct H as [H Hlayout].
+  apply andb_true_iff in H. destruct H as [H Hnames].
+  apply andb_true_iff in H. destruct H as [H Hfun].
+  apply andb_true_iff in H. destruct H as [Htargets Hkeys].
+  unfold names_ok in Hnames.
+  apply andb_true_iff in Hnames. destruct Hnames as [Hnames Hleg].
+  apply andb_true_iff in Hnames. destruct Hnames as [Hnd1 Hnd2].
+  unfold layout_ok in Hlayout.
+  apply andb_true_iff in Hlayout. destruct Hlayout as [Hlayout Hmark].
+  apply andb_true_iff in Hlayout. destruct Hlayout as [Hlayout Hstep].
+  apply andb_true_iff in Hlayout. destruct Hlayout as [Hlayout Hfirst].
+  apply andb_true_iff in Hlayout. destruct Hlayout as [Hlayout Hsheets].
+  apply andb_true_iff in Hlayout. destruct Hlayout as [Hz1 Hz2].
+  unfold map_functional in Hfun. apply andb_true_iff in Hfun. destruct Hfun as [Hf1 Hf2].
+  constructor.
+  - apply str_nodup_NoDup. exact Hnd1.
+  - intros n Hn. unfold kept_are_keys in Hkeys. rewrite forallb_forall in Hkeys. specialize (Hkeys n Hn).
+    apply andb_true_iff in Hkeys. destruct Hkeys as [K1 K2]. split; [apply smem_In; exact K2|].
+    destruct (sheet_types T n); [discriminate | discriminate].
+  - apply Z.eqb_eq. exact Hstep.
+  - apply Z.eqb_eq. exact Hmark.
+  - apply Z.leb_le. exact Hfirst.
+  - exact Hleg.
+  - intros s Hs. rewrite forallb_forall in Hsheets. specialize (Hsheets s Hs).
+    apply andb_true_iff in Hsheets. destruct Hsheets as [Hsheets S4].
+    apply andb_true_iff in Hsheets. destruct Hsheets as [Hsheets S3].
+    apply andb_true_iff in Hsheets. destruct Hsheets as [S1 S2].
+    split; [apply Z.leb_le; exact S2|]. split; [apply Z.leb_le; exact S4|]. split.
+    + intros w Hw. rewrite forallb_forall in S3. specialize (S3 w Hw).
+      apply andb_true_iff in S3. destruct S3 as [S3 W4].
+      apply andb_true_iff in S3. destruct S3 as [S3 W3].
+      apply andb_true_iff in S3. destruct S3 as [W1 W2]. lia.
+    + intros cf Hcf. rewrite forallb_forall in S1. specialize (S1 cf Hcf). apply andb_true_iff in S1. lia.
+  - apply z_nodup_NoDup. exact Hz1.
+  - apply z_nodup_NoDup. exact Hz2.
+  - intros ty n Hty. unfold targets_exist in Htargets. rewrite forallb_forall in Htargets.
+    assert (Hin : In ty all_ttypes) by (destruct ty; cbn; tauto).
+    specialize (Htargets ty Hin). rewrite Hty in Htargets. apply andb_true_iff in Htargets. apply smem_In. tauto.
+  - apply str_nodup_NoDup. exact Hf2.
+  - intro ty. rewrite forallb_forall in Hf1. assert (Hin : In ty all_ttypes) by (destruct ty; cbn; tauto).
+    specialize (Hf1 ty Hin). apply Nat.leb_le. exact Hf1.
+Qed.
+
+Lemma init_rows_get n : In n (tt_sheet_names T) -> sget n (init_rows T) = Some (tt_first_row T).
+Proof. intro H. unfold init_rows. rewrite sget_map_const. apply smem_In in H. rewrite H. reflexivity. Qed.
+
+Lemma In_data_name s : In s (data_sheets0 T) -> In (sw_name s) (data_sheet_names T).
+Proof. intro H. unfold data_sheet_names. apply in_map. exact H. Qed.
+
+(** Main statement about the report as a whole: which sheets remain, and what every remaining
+    data sheet holds -- the template's cells followed by one row per fraction routed to it, rows
+    numbered consecutively from the first data row across all assets *)
+Theorem tax_report_spec i out : tables_good -> tax_report T i = Ok out ->
+  exists acs items, computed_all i (rp_assets i) = Ok acs /\ all_items T i acs = Ok items
+   /\ map sw_name out = filter (fun n => str_eqb n s_Legend || negb (nrouted T n items =? 0)) (map sw_name (init0 T))
+   /\ (forall s, In s out -> is_legend s = false ->
+         exists s0, In s0 (data_sheets0 T) /\ sw_name s = sw_name s0 /\ sw_cols s = sw_cols s0
+                    /\ sw_writes s = sw_writes s0 ++ spec_writes T (sw_name s) (tt_first_row T) items).
+Proof.
+  intros G H. unfold tax_report in H.
+  destruct (computed_all i (rp_assets i)) as [acs|] eqn:EC; [|discriminate].
+  destruct (init_sheets T i) as [sheets|] eqn:EI; [|discriminate].
+  destruct (gen_assets T i {| ts_rows := init_rows T; ts_sheets := sheets |} acs) as [st|] eqn:EG; [|discriminate].
+  destruct (prune T (ts_rows st) (ts_sheets st)) as [out'|] eqn:EP; [|discriminate].
+  inversion H; subst out'. clear H.
+  unfold init_sheets in EI. destruct (negb _) in EI; [discriminate|].
+  destruct (legend_writes T i) as [lw|] eqn:EL; [|discriminate]. inversion EI; subst sheets. clear EI.
+  assert (ND : NoDup (map sw_name (ts_sheets {| ts_rows := init_rows T; ts_sheets := omap_filter (init_sheet T lw) (tt_template T) |}))).
+  { cbn [ts_sheets]. rewrite init_names. exact (tg_nodup G). }
+  destruct (gen_assets_spec T i acs _ st ND EG) as [items [Hitems [Hrows [[dr Hsheets] _]]]]. cbn [ts_rows ts_sheets] in *.
+  exists acs, items. split; [reflexivity|]. split; [exact Hitems|].
+  pose proof (prune_spec _ _ _ EP) as Hout.
+  (* row index of a data sheet at the end *)
+  assert (Hrow : forall n, In n (data_sheet_names T) -> rowd (ts_rows st) n = tt_first_row T + nrouted T n items).
+  { intros n Hn. unfold rowd. rewrite Hrows, (init_rows_get n (proj1 (tg_keys G n Hn))), (tg_step G). f_equal. ring. }
+  (* names of the sheets of the initialised file that are not the legend are data sheet names *)
+  assert (Hdn : forall n, In n (map sw_name (init0 T)) -> str_eqb n s_Legend = false -> In n (data_sheet_names T)).
+  { intros n Hn Hl. apply in_map_iff in Hn. destruct Hn as [s [Hs1 Hs2]]. subst n. apply In_data_name. unfold data_sheets0.
+    apply filter_In. split; [exact Hs2|]. unfold is_legend. rewrite Hl. reflexivity. }
+  split.
+  - rewrite Hout, Hsheets.
+    rewrite (map_filter_name (fun n => str_eqb n s_Legend || negb (rowd (ts_rows st) n =? tt_empty_mark T))) by (intro; reflexivity).
+    rewrite names_ext, init_names. apply filter_ext_in. intros n Hn.
+    destruct (str_eqb n s_Legend) eqn:El; [reflexivity|]. cbn [orb]. f_equal.
+    rewrite (Hrow n (Hdn n Hn El)), (tg_mark G).
+    destruct (nrouted T n items =? 0) eqn:E0; [apply Z.eqb_eq in E0; rewrite E0; apply Z.eqb_eq; ring|].
+    apply Z.eqb_neq in E0. apply Z.eqb_neq. lia.
+  - intros s Hs Hl. rewrite Hout in Hs. apply filter_In in Hs. destruct Hs as [Hs _]. rewrite Hsheets in Hs.
+    apply in_map_iff in Hs. destruct Hs as [s1 [Es Hs1]]. subst s. cbn [ext sw_name sw_cols sw_writes] in *.
+    assert (Hs0 : In s1 (data_sheets0 T)).
+    { unfold data_sheets0, init0. rewrite <- (init_data lw). apply filter_In. split; [exact Hs1|].
+      unfold is_legend in *. cbn [ext sw_name] in Hl. rewrite Hl. reflexivity. }
+    exists s1. split; [exact Hs0|]. split; [reflexivity|]. split; [reflexivity|]. f_equal. f_equal.
+    unfold rowd. rewrite (init_rows_get _ (proj1 (tg_keys G _ (In_data_name _ Hs0)))). reflexivity.
+Qed.
+
+End Whole.
